@@ -66,6 +66,7 @@ fn run(input: RunInput) -> ScenFuture {
             Plan {
                 delay: Duration::from_millis(g("x-delay-ms")),
                 response: Response::new(body_for(seed, nonce, g("x-resp-len") as usize, 0xBB)).with_header("x-echo-nonce", nonce.to_string()),
+                hold: Duration::from_millis(g("x-hold-ms")),
             }
         });
         let svc = Svc::new(&w, plan);
